@@ -544,6 +544,7 @@ def wire_facts_h1_request(data: bytes):
         # complete head announcing N > 0 octets of which fewer than N follow
         "cl_exceeds_bytes_written": bool(sep) and len(cl) == 1 and cl[0].isdigit() and b"transfer-encoding" not in names and int(cl[0]) > len(after),
         "has_chunked_te": b"transfer-encoding" in names,
+        "no_framing_fields": bool(sep) and b"content-length" not in names and b"transfer-encoding" not in names,
     }
 
 
@@ -563,6 +564,18 @@ def wire_facts_h1_responses(down: bytes, tag: bytes | None = None):
         if mcl and b"transfer-encoding" not in fields and int(mcl.group(1)) > nxt - m.end():
             facts["cl_exceeds_bytes_before_next_head"] = True
     return facts
+
+
+def pick_window(r, sizes, p=0.45):
+    """SETTINGS_INITIAL_WINDOW_SIZE for an HTTP/2 next hop, small enough that the largest body needs several WINDOW_UPDATE round
+    trips (flow-control back-pressure in BufferedH2Connection: buffered remainder + END_STREAM marker, credit granted in steps
+    smaller than the buffered chunk), large enough to keep the number of scheduler steps bounded.  None = library default."""
+    if r.random() >= p or not sizes or max(sizes) == 0:
+        return None
+    total, big = sum(sizes), max(sizes)
+    cands = [w for w in (3, 16, 64, 300, 1000) if total / w <= 200]
+    pressure = [w for w in cands if big > 2 * w]
+    return r.choice(pressure or cands) if cands else None
 
 
 def classify(kind, info):
@@ -591,7 +604,9 @@ def classify(kind, info):
         if wire.get("absolute_form_target") and kind == "upstream-request-differs" and info.get("diff_keys") == {"authority", "path"}:
             return "h2-path-in-absolute-form-overrides-authority-at-http1-origin"
         # (b) head without Content-Length/Transfer-Encoding followed by body octets: HTTP/2 DATA written unframed     [known]
-        if wire.get("unframed_body"):
+        #     (also when the stream was cut before any DATA arrived: the head of a request whose HEADERS frame did not end the stream
+        #     already went out without framing, so the origin takes it for a complete body-less request)
+        if wire.get("unframed_body") or (wire.get("no_framing_fields") and info.get("ended_on_headers") is False):
             return "h2-request-body-without-content-length-sent-unframed-to-http1"
         # (d) head announces more octets than were written and the HTTP/2 stream had ended on HEADERS          [fixed 8eb744f3e]
         if wire.get("cl_exceeds_bytes_written") and info.get("ended_on_headers") and kind in up_kinds:
@@ -627,6 +642,9 @@ def run_case(ctx, opts):
     adv_resp = sv == "h2" and r.random() < 0.35
     stream_req = r.random() < 0.2
     stream_resp = r.random() < 0.2
+    # flow-control pressure towards h2 next hops: the origin's window limits request bodies, the client's window response bodies
+    srv_window = pick_window(r, [len(q["body"] or b"") for q in reqs]) if sv == "h2" else None
+    cli_window = pick_window(r, [len(gen_response(salt, q["tag"], q["method"], sv)["body"]) for q in reqs]) if cv == "h2" else None
 
     responses = {}
     resp_sent = {}  # tag -> what the origin actually rendered (block / bytes)
@@ -666,7 +684,7 @@ def run_case(ctx, opts):
             origin_h1.append((conn, p))
             return p
         conn.alpn = b"h2"
-        p = P.H2ServerPeer(h2_responder, r, out_cut=r.choice(["whole", "random"]), name=f"o{len(origin_h2)}")
+        p = P.H2ServerPeer(h2_responder, r, settings={4: srv_window} if srv_window is not None else None, out_cut=r.choice(["whole", "random"]), name=f"o{len(origin_h2)}")
         origin_h2.append((conn, p))
         return p
 
@@ -705,12 +723,12 @@ def run_case(ctx, opts):
                     sc = [(a[0], 2 * k + 1) + tuple(a[2:]) for a in h2_request_actions(r, q, k)]
                     sc = [a if a[0] != "trailers" else ("headers", a[1], a[2], True) for a in sc]
                 script += sc
-            cpeer = P.RawH2Client(script, r, cut=r.choice(["whole", "random", "fine"]))
+            cpeer = P.RawH2Client(script, r, cut=r.choice(["whole", "random", "fine"]), settings={4: cli_window} if cli_window is not None else None)
         else:
             script = []
             for k, q in enumerate(reqs):
                 script += h2_request_actions(r, q, k)
-            cpeer = P.H2ClientPeer(script, r, cut=r.choice(["whole", "random", "fine"]))
+            cpeer = P.H2ClientPeer(script, r, cut=r.choice(["whole", "random", "fine"]), settings={4: cli_window} if cli_window is not None else None)
     d.attach_client_peer(cpeer)
     d.start()
     d.run()
@@ -742,7 +760,7 @@ def run_case(ctx, opts):
             isinstance(acts, list) and len(acts) == 1 and acts[0][0] == "headers" and acts[0][2] and any(n == b"content-length" and v.isdigit() and int(v) > 0 for n, v in acts[0][1])
             for acts in resp_sent.values()),
     }
-    base = {"pair": pair, "mode": mode, "req_feats": req_feats, "resp_feats": resp_feats, "stream_req": stream_req, "stream_resp": stream_resp, "hooks": d.hook_names()[:40],
+    base = {"pair": pair, "mode": mode, "req_feats": req_feats, "resp_feats": resp_feats, "stream_req": stream_req, "stream_resp": stream_resp, "srv_window": srv_window, "cli_window": cli_window, "hooks": d.hook_names()[:40],
             "exceptions": [e[:2] for e in d.exceptions], "client_sent": (getattr(cpeer, "sent_bytes", None) or b"".join(s for s in getattr(cpeer, "segments", []) if isinstance(s, bytes)))[:1200]}
 
     def viol(kind, extra, more=None):
@@ -757,7 +775,7 @@ def run_case(ctx, opts):
             viol("origin-h2-rejects-proxy-bytes", {"errors": p.protocol_errors})
     if cv == "h2" and not raw_client:
         ctx.count("peer.protocol")
-        head_page = any(q["method"] == b"HEAD" for q in reqs) and all(e.startswith("InvalidBodyLengthError") for e in cpeer.protocol_errors) and b"</html>" in bytes(d.out[client])
+        head_page = any(q["method"] == b"HEAD" for q in reqs) and all(e.startswith("InvalidBodyLengthError: InvalidBodyLengthError: Expected 0 bytes") for e in cpeer.protocol_errors) and "error" in d.hook_names()
         if cpeer.protocol_errors and head_page:
             # not a translation issue: mitmproxy's OWN error page is sent with a body in answer to an HTTP/2 HEAD request (reported to the coordinator)
             ctx.count("side_finding_h2_error_page_with_body_for_head")
@@ -892,7 +910,7 @@ def run_case(ctx, opts):
                 if sv == "h2" and not got.get("complete"):
                     df.append(("upstream-stream-not-ended",))
                 if df:
-                    viol("upstream-request-differs", {"tag": tag, "diff": df}, {"wire": up_wire_by_tag.get(tag), "diff_keys": {x[0] for x in df}})
+                    viol("upstream-request-differs", {"tag": tag, "diff": df}, {"wire": up_wire_by_tag.get(tag), "diff_keys": {x[0] for x in df}, "ended_on_headers": not q["body"] and not q["trailers"]})
         else:
             # ---- adversarial request: rejected or forwarded faithfully
             ctx.count("adversarial.outcome")
@@ -971,7 +989,8 @@ def run_case(ctx, opts):
             outcomes.append("resp-forwarded")
 
     hostile = bool(adv_req and any(q["adv"] for q in reqs)) or any(rs["adv"] for rs in responses.values())
-    sig = (pair, mode.split(":")[0], tuple(req_feats), tuple(resp_feats), tuple(sorted(set(outcomes))), stream_req, stream_resp)
+    sig = (pair, mode.split(":")[0], tuple(req_feats), tuple(resp_feats), tuple(sorted(set(outcomes))), stream_req, stream_resp,
+           (srv_window is not None and srv_window <= 64, cli_window is not None and cli_window <= 64))
     ctx.seen("outcomes", f"{pair}:{'+'.join(sorted(set(req_feats) - {'body', 'cl', 'no-cl'}))[:80]}=>{','.join(outcomes)}")
     sample = {"pair": pair, "mode": mode, "req_feats": req_feats, "resp_feats": resp_feats, "outcomes": outcomes, "client_outcome": {t.decode(): o for t, o in client_outcome.items()}, "hooks": d.hook_names()[:20]}
     return sig, (cv != sv) or hostile, sample
